@@ -1,5 +1,5 @@
 (* C15 oracle: extracted Z-carrying kernel models (model/ZErase.v).  Same commands/formats as the z build of
-   harness/cx_z.cpp: SETZ EQ STRIP TRANSL TRIM MINK.  Points are read as "x y z".  Parsing/printing only. *)
+   harness/cx_z.cpp: SETZ SPLITZ EQ STRIP TRANSL TRIM MINK.  Points are read as "x y z".  Parsing/printing only. *)
 open M
 open Zconv
 
@@ -21,6 +21,17 @@ let handle t =
         if cb = 1 then (fst p, z_of_int 777) else p in
       let r = set_z (if cb = 0 then None else Some f) dz { e_clip = t1; e_bot = b1; e_top = tp1 } { e_clip = t2; e_bot = b2; e_top = tp2 } ip in
       string_of_z (snd r) ^ " " ^ string_of_int !n ^ !log
+  | "SPLITZ" -> (* SPLITZ cb <ring x y z ...> G ipx ipy ipz small keep  ->  K <ring|-1> N <ring|-1> L ncalls [4 pts, zin]* *)
+      let cb = next_int t in let ring = read_path3 t in
+      let _ = next t in let ip = read_pt3 t in let small = next_bool t in let keep = next_bool t in
+      let log = ref "" and n = ref 0 in
+      let f a b c d p = incr n;
+        log := !log ^ " " ^ show3 a ^ " " ^ show3 b ^ " " ^ show3 c ^ " " ^ show3 d ^ " " ^ string_of_z (snd p);
+        if cb = 1 then (fst p, z_of_int 777) else p in
+      let show_ring = function None -> "-1" | Some r -> String.concat " " (string_of_int (List.length r) :: List.map show3 r) in
+      (match do_split_op_z (if cb = 0 then None else Some f) ring { sg_ip = ip; sg_small = small; sg_keep = keep } with
+       | None -> "MODEL-SHORT-RING"
+       | Some (k, nw) -> "K " ^ show_ring k ^ " N " ^ show_ring nw ^ " L " ^ string_of_int !n ^ !log)
   | "EQ" -> let a = read_pt3 t in let b = read_pt3 t in
       let e = point_eqb3 a b in show_bool e ^ " " ^ show_bool (not e)
   | "STRIP" -> let closed = next_bool t in let p = read_path3 t in res out1 (strip_duplicates_z p closed)
